@@ -544,7 +544,21 @@ impl DocGen {
     /// one top-level markup item (no trailing newline)
     pub fn item(&mut self) -> String {
         let depth = self.shape.range(1, 3);
-        match self.shape.weighted(&[8, 5, 6, 5, 3, 3, 4, 3, 3, 2, 2, 2, 4, 2, 2, 2, 1, 3, 2, 1, 2]) {
+        match self.shape.weighted(&[8, 5, 6, 5, 3, 3, 4, 3, 3, 2, 2, 2, 4, 2, 2, 2, 1, 3, 2, 1, 2, 2]) {
+            21 => {
+                // a block comment over several lines whose continuation lines are indented with
+                // tabs (and one with blanks): whatever re-indents or aligns comment lines has to
+                // decide what a tab is worth
+                let id = self.ident();
+                let w1 = self.word();
+                let w2 = self.word();
+                let tabs = "\t".repeat(self.shape.range(1, 3));
+                if self.shape.chance(0.5) {
+                    format!("#{{\n  /* {} {}\n{}{} line\n{}\t{} last\n   spaces */\n  let {} = 1\n}}", w1, id, tabs, w2, tabs, w1, id)
+                } else {
+                    format!("/* {} {}\n{}{} line\n{}{} last */\n#let {} = 1", w1, id, tabs, w2, tabs, w1, id)
+                }
+            }
             20 => {
                 // a row of short strings made of characters whose width is a matter of opinion
                 // (East Asian ambiguous: one column here, two in a CJK terminal; wide; combining;
